@@ -177,14 +177,26 @@ def module_path():
     return _STATE['path']
 
 
-def load():
+CONFIGS = {
+    'none': None,
+    # a non-empty default directive state, one dict object shared by every doctest of the module - exactly what
+    # runner.doctest_module and the pytest plugin hand to the examples when --options is given
+    'opt-ellipsis': {'ELLIPSIS': True},
+    'opt-noskip': {'SKIP': False, 'NORMALIZE_WHITESPACE': True},
+}
+
+
+def load(cfg='none'):
     from xdoctest import core
     with contextlib.redirect_stdout(io.StringIO()), warnings.catch_warnings():
         warnings.simplefilter('ignore')
         exs = list(core.parse_doctestables(module_path(), style='freeform', analysis='static'))
+    shared = copy.deepcopy(CONFIGS[cfg])
     for e in exs:
         e.mode = 'native'
         e.config['colored'] = False
+        if shared is not None:
+            e.config['default_runtime_state'] = shared
     return {e.callname: e for e in exs}
 
 
@@ -220,8 +232,11 @@ def baselines():
         from xdoctest import directive
         _STATE['defaults'] = copy.deepcopy(directive.DEFAULT_RUNTIME_STATE)
         base = {}
+        for cfg in CONFIGS:
+            for name, env in EVENTS:
+                base[(cfg, name, env)] = run(load(cfg)[name], env)
         for name, env in EVENTS:
-            base[(name, env)] = run(load()[name], env)
+            base[(name, env)] = base[('none', name, env)]
         _STATE['base'] = base
     return _STATE['base']
 
@@ -233,44 +248,59 @@ class HistorySpec(Spec):
 
     def __init__(self, name, max_len, min_len=1):
         self.name = name
-        self.max_len = max_len
+        self.max_len = max_len + 1
         self.min_len = min_len
         self.max_cost = 99
-        self.rule = ('all sequences of <= %d run events over %d events (%d doctests; the environment-sensitive one with '
+        self.rule = ('default options %r (one shared dict per history) x all sequences of <= %d run events over %d events (%d doctests; the environment-sensitive one with '
                      'XV_F set and unset); one set of DocTest objects per history, so repeating an event re-runs the '
-                     'same object; non-trivial = history of >= 2 runs' % (max_len, len(EVENTS), len(NAMES)))
+                     'same object; non-trivial = history of >= 2 runs' % (list(CONFIGS), max_len, len(EVENTS), len(NAMES)))
         baselines()
 
     # model state for counting: which kinds of residue previous runs could have left
     def init(self):
-        return frozenset()
+        return None
 
     def enabled(self, S, hist):
+        if S is None:
+            return [('config', c) for c in CONFIGS]
         return EVENTS
 
+    def cost(self, ev):
+        return 0
+
     def step(self, S, ev):
+        if S is None:
+            return frozenset([ev])
         return frozenset(S | {ev[0]})
 
     def final(self, S, hist):
-        return len(hist) >= self.min_len
+        return len(hist) - 1 >= self.min_len
 
     def run_case(self, hist):
         from xdoctest import directive
         base = baselines()
-        objs = load()
+        cfg = hist[0][1]
+        hist = hist[1:]
+        objs = load(cfg)
+        shared_before = copy.deepcopy(CONFIGS[cfg])
         atoms = []
         obs = []
         for i, (name, env) in enumerate(hist):
             r = run(objs[name], env)
             obs.append(r[0])
-            exp = base[(name, env)]
+            exp = base[(cfg, name, env)]
             if r != exp:
                 prev = [h[0] for h in hist[:i]]
                 what = 'same-object-rerun' if name in prev else 'after-other-doctest'
                 field = 'verdict' if r[:2] != exp[:2] else ('stdout' if r[2:3] != exp[2:3] else 'report')
                 atoms.append({'sig': 'isolation:%s:%s:%s' % (what, field, name),
-                              'msg': 'run %d of %r after %r: %r, a fresh object run first gives %r' % (i, (name, env), prev, r, exp)})
+                              'msg': 'default options %s: run %d of %r after %r: %r, a fresh object run first gives %r' % (
+                                  cfg, i, (name, env), prev, r, exp)})
                 break
+        shared_after = objs[NAMES[0]].config['default_runtime_state'] if CONFIGS[cfg] is not None else None
+        if shared_after != shared_before:
+            atoms.append({'sig': 'isolation:shared-default-options-mutated',
+                          'msg': 'default_runtime_state handed to the doctests was %r, is now %r' % (shared_before, shared_after)})
         mod = sys.modules.get(_STATE['modname'])
         if mod is not None and mod.G != 'orig':
             atoms.append({'sig': 'isolation:module-global-rebound', 'msg': 'module G=%r' % (mod.G,)})
@@ -280,8 +310,8 @@ class HistorySpec(Spec):
                           'msg': '%r' % ({k: v for k, v in directive.DEFAULT_RUNTIME_STATE.items() if v != _STATE['defaults'][k]},)})
             directive.DEFAULT_RUNTIME_STATE.clear()
             directive.DEFAULT_RUNTIME_STATE.update(copy.deepcopy(_STATE['defaults']))
-        return {'atoms': atoms, 'n': len(hist), 'outcome': ','.join(obs), 'case': {'history': [list(h) for h in hist]},
-                'nontrivial': len(hist) >= 2}
+        return {'atoms': atoms, 'n': len(hist), 'outcome': ','.join(obs),
+                'case': {'default_options': cfg, 'history': [list(h) for h in hist]}, 'nontrivial': len(hist) >= 2}
 
 
 class RunnerOrderSpec(Spec):
@@ -292,28 +322,34 @@ class RunnerOrderSpec(Spec):
 
     def __init__(self, name, max_len, min_len=2):
         self.name = name
-        self.max_len = max_len
+        self.max_len = max_len + 1
         self.min_len = min_len
         self.max_cost = 99
-        self.rule = ('all sequences of %d..%d distinct doctests written to a module in that order and run by the native '
+        self.rule = ('default options x all sequences of %d..%d distinct doctests written to a module in that order and run by the native '
                      'runner; the per-doctest outcome must equal the outcome of the doctest run alone' % (min_len, max_len))
         baselines()
 
     def init(self):
-        return frozenset()
+        return None
 
     def enabled(self, S, hist):
+        if S is None:
+            return [('config', c) for c in CONFIGS]
         return [n for n in NAMES if n not in S]
 
     def step(self, S, ev):
+        if S is None:
+            return frozenset()
         return frozenset(S | {ev})
 
     def final(self, S, hist):
-        return len(hist) >= self.min_len
+        return len(hist) - 1 >= self.min_len
 
     def run_case(self, hist):
         import xdoctest
         base = baselines()
+        cfg = hist[0][1]
+        hist = hist[1:]
         # cut the functions out of MODSRC in the requested order
         chunks = re.split(r'^(?=def )', MODSRC, flags=re.M)
         head = chunks[0] + [c for c in chunks if c.startswith('def getG')][0]
@@ -330,8 +366,10 @@ class RunnerOrderSpec(Spec):
             try:
                 with contextlib.redirect_stdout(buf), contextlib.redirect_stderr(buf), warnings.catch_warnings():
                     warnings.simplefilter('ignore')
-                    xdoctest.doctest_module(p, command='all', argv=[], verbose=1, style='freeform',
-                                            config={'colored': False})
+                    config = {'colored': False}
+                    if CONFIGS[cfg] is not None:
+                        config['default_runtime_state'] = copy.deepcopy(CONFIGS[cfg])
+                    xdoctest.doctest_module(p, command='all', argv=[], verbose=1, style='freeform', config=config)
             except BaseException as ex:
                 if type(ex).__name__ == 'CaseTimeout':
                     raise
@@ -341,13 +379,13 @@ class RunnerOrderSpec(Spec):
             got = {}
             for m in re.finditer(r'^\* (SUCCESS|FAILURE|SKIPPED): .*::(\w+):0$', buf.getvalue(), re.M):
                 got[m.group(2)] = {'SUCCESS': 'passed', 'FAILURE': 'failed', 'SKIPPED': 'skipped'}[m.group(1)]
-            exp = {n: base[(n, None)][0] for n in hist}
+            exp = {n: base[(cfg, n, None)][0] for n in hist}
             if not atoms and got != exp:
                 diff = {n: (got.get(n), exp[n]) for n in hist if got.get(n) != exp[n]}
                 atoms.append({'sig': 'isolation:runner-order:' + ','.join(sorted(diff)),
-                              'msg': 'order %r: (got, alone) %r' % (list(hist), diff)})
+                              'msg': 'default options %s, order %r: (got, alone) %r' % (cfg, list(hist), diff)})
         return {'atoms': atoms, 'n': len(hist), 'outcome': ','.join(got.get(n, '?') for n in hist),
-                'case': {'order': list(hist)}, 'nontrivial': 1}
+                'case': {'default_options': cfg, 'order': list(hist)}, 'nontrivial': 1}
 
 
 def specs(tier):
